@@ -85,6 +85,7 @@ type Store struct {
 	// fault injection
 	WritesSeen int // atomic writes applied or refused since ResetFaults
 	CrashAfter int // <0: never; otherwise writes with index >= CrashAfter are refused
+	FailOnly   int // <0: never; otherwise exactly the write with this index is refused (transient I/O error)
 	Log        []Op
 }
 
@@ -99,7 +100,7 @@ func StoreFor(dir string) *Store {
 	defer regMu.Unlock()
 	s, ok := registry[dir]
 	if !ok {
-		s = &Store{cfs: map[string]map[string][]byte{}, CrashAfter: -1}
+		s = &Store{cfs: map[string]map[string][]byte{}, CrashAfter: -1, FailOnly: -1}
 		registry[dir] = s
 	}
 	return s
@@ -114,7 +115,7 @@ func Drop(dir string) {
 
 func (s *Store) ResetFaults() {
 	s.mu.Lock()
-	s.WritesSeen, s.CrashAfter, s.Log = 0, -1, nil
+	s.WritesSeen, s.CrashAfter, s.FailOnly, s.Log = 0, -1, -1, nil
 	s.mu.Unlock()
 }
 func (s *Store) SetCrashAfter(n int) {
@@ -122,6 +123,17 @@ func (s *Store) SetCrashAfter(n int) {
 	s.WritesSeen, s.CrashAfter = 0, n
 	s.mu.Unlock()
 }
+
+// SetFailOnly makes exactly the n-th atomic write fail (the process survives).
+func (s *Store) SetFailOnly(n int) {
+	s.mu.Lock()
+	s.WritesSeen, s.FailOnly = 0, n
+	s.mu.Unlock()
+}
+
+// ErrTransient is returned by the single write refused by SetFailOnly.
+var ErrTransient = errors.New("fake rocksdb: write failed (injected transient I/O error)")
+
 func (s *Store) Writes() int {
 	s.mu.Lock()
 	defer s.mu.Unlock()
@@ -153,6 +165,9 @@ func (s *Store) apply(recs []rec, batch bool) error {
 	s.WritesSeen++
 	if s.CrashAfter >= 0 && idx >= s.CrashAfter {
 		return ErrCrashed
+	}
+	if s.FailOnly >= 0 && idx == s.FailOnly {
+		return ErrTransient
 	}
 	s.Log = append(s.Log, Op{Batch: batch, N: len(recs)})
 	for _, r := range recs {
@@ -270,3 +285,31 @@ func (it *Iterator) Key() *Slice   { return &Slice{data: []byte(it.keys[it.pos])
 func (it *Iterator) Value() *Slice { return &Slice{data: it.vals[it.pos]} }
 func (it *Iterator) Close()        {}
 func (it *Iterator) Err() error    { return nil }
+
+// CloneStore copies the durable content behind src to a new store behind dst
+// (fault counters reset). Used by the harness to re-run a step from the same
+// pre-state with a different crash point.
+func CloneStore(src, dst string) *Store {
+	s := StoreFor(src)
+	d := &Store{cfs: map[string]map[string][]byte{}, CrashAfter: -1, FailOnly: -1}
+	s.mu.Lock()
+	for cf, m := range s.cfs {
+		dm := map[string][]byte{}
+		for k, v := range m {
+			dm[k] = append([]byte(nil), v...)
+		}
+		d.cfs[cf] = dm
+	}
+	s.mu.Unlock()
+	regMu.Lock()
+	registry[dst] = d
+	regMu.Unlock()
+	return d
+}
+
+// Crashed reports whether a write has been refused since the last SetCrashAfter/ResetFaults.
+func (s *Store) Crashed() bool {
+	s.mu.Lock()
+	defer s.mu.Unlock()
+	return s.CrashAfter >= 0 && s.WritesSeen > s.CrashAfter
+}
